@@ -12,6 +12,7 @@ import (
 	"os"
 	"path/filepath"
 	"strings"
+	"time"
 
 	"google.golang.org/grpc/codes"
 	"google.golang.org/grpc/status"
@@ -63,11 +64,27 @@ func cmdFaultsGrpc(args []string) error {
 	var samples []string
 	nd := 0
 	var allOps, allObs []string // the Set is shared by the whole run: one long history
+	var descs []fdesc
+	streams, maxStreams := 0, *n/2
 	for sc := 0; sc < *n; sc++ {
 		// add 1-2 descriptions
 		for k := 0; k < 1+r.Intn(2); k++ {
 			d := fdesc{Count: []int64{1, 2, 3}[r.Intn(3)]}
-			switch r.Intn(6) {
+			switch r.Intn(9) {
+			case 6:
+				// names a request field: the stream-open check only carries service -> method, so
+				// this can never fire when the stream is opened
+				d.Op, d.Params = "StreamingPull", map[string]string{"subscription": subs[r.Intn(len(subs))]}
+			case 7:
+				d.Op, d.Params = "StreamingPull", nil
+				if r.Intn(2) == 0 {
+					d.Params = map[string]string{subSvc: "StreamingPull"}
+				}
+			case 8:
+				d.Op, d.Params = "StreamingPull:RecvMsg", nil
+				if r.Intn(3) > 0 {
+					d.Params = map[string]string{"subscription": subs[r.Intn(len(subs))]}
+				}
 			case 0:
 				d.Op, d.Params = "GetTopic", map[string]string{"topic": names[r.Intn(len(names))]}
 			case 1:
@@ -83,6 +100,7 @@ func cmdFaultsGrpc(args []string) error {
 			}
 			idx := nd
 			nd++
+			descs = append(descs, d)
 			e.Faults.Add(faults.Description{Operation: d.Op, Parameters: d.Params, Count: d.Count, FaultDescription: fmt.Sprint(idx),
 				OnFault: func(dd faults.Description, _ faults.Parameters) error {
 					return status.Errorf(codes.DataLoss, "F:%d:%d", idx, dd.Count)
@@ -94,6 +112,63 @@ func cmdFaultsGrpc(args []string) error {
 			var req proto.Message
 			var svc, method string
 			var err error
+			if streams < maxStreams && r.Intn(5) == 0 {
+				// a streaming pull: the interceptor checks at stream open (service -> method only),
+				// then before and after receiving the first request message
+				streams++
+				sub := subs[r.Intn(len(subs))]
+				sctx, cancel := context.WithTimeout(ctx, 250*time.Millisecond)
+				var serr error
+				if st, err := e.Sub.StreamingPull(sctx); err != nil {
+					serr = err
+				} else if err := st.Send(&pubsubpb.StreamingPullRequest{Subscription: sub, StreamAckDeadlineSeconds: 10}); err != nil {
+					serr = err
+				} else {
+					_, serr = st.Recv()
+				}
+				cancel()
+				firedIdx, firedRem, fired := int64(-1), int64(0), false
+				if st, ok := status.FromError(serr); ok && st.Code() == codes.DataLoss {
+					// the handler wraps receive errors ("Error receiving StreamingPull message: F:i:n")
+					msg := st.Message()
+					if i := strings.LastIndex(msg, "F:"); i >= 0 {
+						msg = msg[i:]
+					}
+					if n, _ := fmt.Sscanf(msg, "F:%d:%d", &firedIdx, &firedRem); n != 2 {
+						return fmt.Errorf("unexpected DataLoss status on a streaming pull: %q", st.Message())
+					}
+					fired = true
+					failed++
+				}
+				stage := 0 // which of the three checks failed: decided by the kind of description that fired
+				if fired {
+					dd := descs[firedIdx]
+					switch {
+					case dd.Op == "StreamingPull":
+						stage = 1
+					case len(dd.Params) == 0:
+						stage = 2
+					default:
+						stage = 3
+					}
+				}
+				msg := &pubsubpb.StreamingPullRequest{Subscription: sub, StreamAckDeadlineSeconds: 10}
+				checks := []string{
+					fmt.Sprintf("SCheck %s %s", coqStr("StreamingPull"), coqMap(map[string]string{subSvc: "StreamingPull"})),
+					fmt.Sprintf("SCheck %s %s", coqStr("StreamingPull:RecvMsg"), coqMap(nil)),
+					fmt.Sprintf("SCheck %s %s", coqStr("StreamingPull:RecvMsg"), coqMap(expectedParams(subSvc, "StreamingPull", msg))),
+				}
+				for i, c := range checks {
+					calls++
+					allOps = append(allOps, c)
+					if fired && stage == i+1 {
+						allObs = append(allObs, fmt.Sprintf("OCheck (Some (%d%%nat, %s))", firedIdx, coqZ(firedRem)))
+						break
+					}
+					allObs = append(allObs, "OCheck None")
+				}
+				continue
+			}
 			switch r.Intn(4) {
 			case 0, 1:
 				q := &pubsubpb.GetTopicRequest{Topic: names[r.Intn(len(names))]}
